@@ -217,7 +217,8 @@ class ConveyorBelt(Edge):
         item.conveyor_exit_time = self.env.now
         self._conveyor_stats_collector()
         event= self.env.event()
-        self.get_events_available.succeed()
+        if not self.get_events_available.triggered:
+            self.get_events_available.succeed()
         print(f"{self.env.now} {item.id} time in conveyor {item.conveyor_entry_time} and {item.conveyor_exit_time} - time spend in conveyor {item.conveyor_exit_time - item.conveyor_entry_time if item.conveyor_exit_time and item.conveyor_entry_time else 'N/A'}")
         return item
 
